@@ -483,3 +483,96 @@ func ZzC08VP9Ind() {
 	zzCover("error returned", err != nil)
 }
 ''')
+
+# ---------------------------------------------------------------- MPEG-1 video
+codec("rtpmpeg1video", "MPEG1Video", enc_pt="", pt_expect="32",
+      mlo=5, mhi=12, mlo03=5, mhi03=10, mhi07=8, p06=10, p03=10, p07=8, p08=8, k08=2, cap="maxFrameSize",
+      frame06='zzValidFrame("frame", P)',
+      valid='''
+// one slice: start code 00 00 01 + type byte + body, no further start code
+// inside; a picture header (type 00) needs at least 6 bytes.
+func zzSlice(name string, P int) []byte {
+	s := zzBytes(name, 4, P)
+	zzAssume(s[0] == 0)
+	zzAssume(s[1] == 0)
+	zzAssume(s[2] == 1)
+	zzAssume(zzOr(s[3] != 0, len(s) >= 6))
+	ok := true
+	for i := 1; i+2 < P; i++ {
+		bad := zzAnd(zzAnd(zzAt(s, i) == 0, zzAt(s, i+1) == 0), zzAt(s, i+2) == 1)
+		ok = zzAnd(ok, zzImplies(i+2 < len(s), !bad))
+	}
+	zzAssume(ok)
+	return s
+}
+
+// a frame = 1..N slices back to back
+func zzValidFrame(name string, P int) zzFrameT {
+	n := zzConcretize(zzIntIn("nslices", 1, zzParam("N", 2)))
+	var f []byte
+	for i := 0; i < n; i++ {
+		f = append(f, zzSlice(name, P)...)
+	}
+	return f
+}
+''',
+      state='''
+func zzState() *Decoder {
+	d := &Decoder{}
+	nf := zzConcretize(zzIntIn("nfrag", 0, 2))
+	for i := 0; i < nf; i++ {
+		f := zzBytes("frag", 1, 3)
+		d.fragments = append(d.fragments, f)
+		d.fragmentsSize += len(f)
+	}
+	d.fragmentNextSeqNum = zzU16("nextseq")
+	if zzBool("hasslice") {
+		u := zzBytes("bufslice", 1, 3)
+		d.sliceBuffer = [][]byte{u}
+		d.sliceBufferSize = len(u)
+	}
+	return d
+}
+''',
+      inv='''
+func zzInv(d *Decoder) bool {
+	n := 0
+	for _, f := range d.fragments {
+		n += len(f)
+	}
+	m := 0
+	for _, f := range d.sliceBuffer {
+		m += len(f)
+	}
+	return zzAnd(zzAnd(n == d.fragmentsSize, d.fragmentsSize <= maxFrameSize), zzAnd(m == d.sliceBufferSize, d.sliceBufferSize <= maxFrameSize))
+}
+''',
+      extra='''
+// C08 (inductive step at the real cap)
+func ZzC08MPEG1VideoInd() {
+	P := zzParam("PI", 8)
+	d := &Decoder{}
+	nf := zzConcretize(zzIntIn("nfrag", 0, 2))
+	for i := 0; i < nf; i++ {
+		f := zzBytesLO("frag", 1, maxFrameSize)
+		d.fragments = append(d.fragments, f)
+		d.fragmentsSize += len(f)
+	}
+	zzAssume(d.fragmentsSize <= maxFrameSize)
+	d.fragmentNextSeqNum = zzU16("nextseq")
+	if zzBool("hasslice") {
+		u := zzBytesLO("bufslice", 1, maxFrameSize)
+		d.sliceBuffer = [][]byte{u}
+		d.sliceBufferSize = len(u)
+	}
+	pkt := &rtp.Packet{Header: rtp.Header{SequenceNumber: zzU16("seq"), Timestamp: zzU32("ts"), Marker: zzBool("marker")},
+		Payload: zzBytes("payload", 0, P)}
+	out, err := d.Decode(pkt)
+	if err == nil {
+		zzAssert(len(out) <= maxFrameSize, "returned frame <= documented maximum")
+	}
+	zzAssert(zzInv(d), "retained bytes accounted and within the documented maximum")
+	zzCover("frame returned", err == nil)
+	zzCover("error returned", err != nil)
+}
+''')
